@@ -342,6 +342,25 @@ class Gen:
                 self.tag('macro-of-macro')
         for _ in range(r.randint(0, 4)):
             out.append(self.s_assign(sc, fresh=True))
+        # macros holding time patterns
+        self.pattern_macros = {}
+        if r.random() < 0.15:
+            for name in r.sample(['t_wake', 'T_half', 'noonish'], r.randint(1, 2)):
+                pat = r.choice(['8:00', '*:30', '1*:*5', '0:0*', '23:5*'])
+                self.pattern_macros[name] = pat
+                self.macros[name] = ('pat', pat)
+                out.append(['define', name, ['pat', pat]])
+                self.tag('pattern-macro')
+        # string variables that are never reassigned (names of zone / matrix
+        # lights given through a variable)
+        self.known_strs = {}
+        special = [d['label'] for d in self.pop if d.get('kind') in ('mz', 'matrix')]
+        if special and r.random() < 0.4:
+            for name in r.sample(['zs0', 'zs1'], r.randint(1, 2)):
+                v = r.choice(special)
+                self.known_strs[name] = v
+                out.append(['assign', name, ['str', v]])
+                self.gdefined[name] = 'str:light'
         # never reassigned: their values are known wherever they are used
         # (zone numbers, rows and columns given as variables)
         self.known_ints = {}
@@ -532,6 +551,11 @@ class Gen:
         pats = [['lit', self.rng.choice(['8:00', '*:30', '1*:*5', '23:59',
                                          '0:0*', '*:*0', '12:*'])]
                 for _ in range(self.rng.choice([1, 1, 2, 3]))]
+        pm = getattr(self, 'pattern_macros', {})
+        for k in range(len(pats)):
+            if pm and self.rng.random() < 0.5:
+                pats[k] = ['macro', self.rng.choice(sorted(pm))]
+                self.tag('time-at-macro')
         self.tag('time-at')
         self.time_is_pattern = True
         return [['time_at', pats]]
@@ -603,6 +627,11 @@ class Gen:
               if t == 'str:light' and v == label]
         if ms and self.rng.random() < 0.3:
             return ['macro', self.rng.choice(ms)]
+        vs = [n for n, v in getattr(self, 'known_strs', {}).items()
+              if v == label]
+        if vs and self.rng.random() < 0.4:
+            self.tag('zone-or-matrix-light-by-variable')
+            return ['var', self.rng.choice(vs)]
         return ['str', label]
 
     def small_int(self, sc, lo, hi):
